@@ -54,7 +54,6 @@ Inductive kinput :=
 Definition kres_csr_sarr (n_row n_col : Z) (r : kres (csr Z)) : sarr :=
   match r with
   | KOk m => SGcxs (mkGCXS [n_row; n_col] [0] (m_data m) (m_indices m) (m_indptr m) 0)
-  | KZeroDiv => SExc ZeroDivisionError
   | KFuel => SHang
   | _ => SOther
   end.
@@ -90,7 +89,7 @@ Definition judge_kernel (c : kinput * sarr) : Z :=
     let sp := spec_flat (csr_dense n_row n_in a) (csr_dense n_in n_col b) in
     let m := match zdot_coo_coo n_row n_col a b with
              | KOk (rows, cols, data) => SCoo (mkCOO [n_row; n_col] (map (fun rc => [fst rc; snd rc]) (combine rows cols)) data 0)
-             | KZeroDiv => SExc ZeroDivisionError | KFuel => SHang | _ => SOther end in
+             | KFuel => SHang | _ => SOther end in
     if sarr_eqb impl m then
       match m with SCoo _ => if same_as_spec m sp then 0 else 4 | _ => 0 end
     else if same_as_spec impl sp then 1 else 2
@@ -135,11 +134,11 @@ Definition model_gcxs2 (ca : bool) (a b : dense Z) : sarr :=
     (* csc @ csc: _dot_csr_csr(out_shape[::-1], b..., a...) on the CSR triples of b.T and a.T *)
     match zdot_csr_csr p m (csr_of_mat p n (mat_t fb)) (csr_of_mat n m (mat_t fa)) with
     | KOk r => let q := zprune p r in SGcxs (mkGCXS [m; p] [1] (m_data q) (m_indices q) (m_indptr q) 0)
-    | KZeroDiv => SExc ZeroDivisionError | KFuel => SHang | _ => SOther end
+    | KFuel => SHang | _ => SOther end
   else
     match zdot_csr_csr m p (csr_of_mat m n fa) (csr_of_mat n p fb) with
     | KOk r => let q := zprune m r in SGcxs (mkGCXS [m; p] [0] (m_data q) (m_indices q) (m_indptr q) 0)
-    | KZeroDiv => SExc ZeroDivisionError | KFuel => SHang | _ => SOther end.
+    | KFuel => SHang | _ => SOther end.
 
 Definition is_exc (r : sarr) : bool := match r with SExc _ => true | _ => false end.
 
